@@ -1,15 +1,16 @@
 # needs: fixes/C09-march-empty-surface.patch, fixes/C09-canonical-edge-interpolation.patch
-from cfgcommon import COMMON_ASSUME
+from cfgcommon import COMMON_ASSUME, twin_job, twin_text, TWIN_TECHNIQUE
 
 CFG = {
 "level": "model_checking",
 "engine": "enum",
-"technique": "bounded-exhaustive enumeration of analytic shapes x placements relative to the storage blocks x resolutions x cutoffs on the real marcher, judged by an independent surface oracle (directed-edge pairing, degenerate faces, signed volume, reference distance functions, reference lattice sampling); second build with only the block-edge constant scaled 100->6 through a go build overlay for dense block-boundary exploration",
+"engines": ["enum", "sched"],
+"technique": "bounded-exhaustive enumeration of analytic shapes x placements relative to the storage blocks x resolutions x cutoffs on the real marcher, judged by an independent surface oracle (directed-edge pairing, degenerate faces, signed volume, reference distance functions, reference lattice sampling); second build with only the block-edge constant scaled 100->6 through a go build overlay for dense block-boundary exploration" + TWIN_TECHNIQUE,
 "jobs": [
     {"variant": "plain-c09", "id": "C09", "args": {"block": "100"}, "share": 0.6, "mem_kb": 8 * 1024 * 1024},
     {"variant": "blk6-c09", "id": "C09", "args": {"block": "6"}, "share": 0.4},
-],
-"level_text": "Real block edge (100): every combination of the listed shapes (marching.Sphere/Box/Line, CombineFields unions, raw sdf fields with a declared domain, boxes whose faces sit on 3-decimal rounding ties) x placements (block interior; straddling one, two, three block faces at +100, at the 0/-1 boundary and at -100; fully negative; mixed) x sub-lattice offsets x cubes-per-unit {1,2,3} (quick {1,3}) x cutoff {0,-0.25} is marched through MarchingCanvas.AddField + March; far / fractional scope: the first four shapes at cubes-per-unit 0.5, 2.5 and 7 near the origin and at 1, 0.5, 2.5, 7 in blocks 1000 away in +x, 1000 away in all three negative axes and 30000 away in z (block keys and the 3-decimal vertex keys are computed from absolute coordinates); thorough adds all 256 sign configurations of one lattice cube placed inside a block, on the last cell of a block per axis and in all three axes, and across the 0/-1 boundary. Scaled block edge (6, overlay on the single constant marchingSectionSize): all 256 configurations x 27 cube positions {interior, last cell, -1|0} ^3 x 3 resolutions x 2 cutoffs, and every integer and half-integer lattice offset of each shape's centre over the 3x3x3 block neighbourhood -1..+1 (36^3 centres per shape, resolution and cutoff; quick: the 13^3 offsets adjacent to block faces and mid-block). Every result is compared with the reference: each directed edge matched by exactly one opposite edge, no repeated-vertex or zero-area triangle, signed volume > 0, every vertex within one cell of the reference isosurface (1-Lipschitz distance functions / trilinear lattice interpolant written in the harness), empty mesh (no crash) exactly when no lattice sample is below the threshold, surface present around the deepest sample of every part.",
+    twin_job("C09T", 0.1)],
+"level_text": "Real block edge (100): every combination of the listed shapes (marching.Sphere/Box/Line, CombineFields unions, raw sdf fields with a declared domain, boxes whose faces sit on 3-decimal rounding ties) x placements (block interior; straddling one, two, three block faces at +100, at the 0/-1 boundary and at -100; fully negative; mixed) x sub-lattice offsets x cubes-per-unit {1,2,3} (quick {1,3}) x cutoff {0,-0.25} is marched through MarchingCanvas.AddField + March; far / fractional scope: the first four shapes at cubes-per-unit 0.5, 2.5 and 7 near the origin and at 1, 0.5, 2.5, 7 in blocks 1000 away in +x, 1000 away in all three negative axes and 30000 away in z (block keys and the 3-decimal vertex keys are computed from absolute coordinates); thorough adds all 256 sign configurations of one lattice cube placed inside a block, on the last cell of a block per axis and in all three axes, and across the 0/-1 boundary. Scaled block edge (6, overlay on the single constant marchingSectionSize): all 256 configurations x 27 cube positions {interior, last cell, -1|0} ^3 x 3 resolutions x 2 cutoffs, and every integer and half-integer lattice offset of each shape's centre over the 3x3x3 block neighbourhood -1..+1 (36^3 centres per shape, resolution and cutoff; quick: the 13^3 offsets adjacent to block faces and mid-block). Every result is compared with the reference: each directed edge matched by exactly one opposite edge, no repeated-vertex or zero-area triangle, signed volume > 0, every vertex within one cell of the reference isosurface (1-Lipschitz distance functions / trilinear lattice interpolant written in the harness), empty mesh (no crash) exactly when no lattice sample is below the threshold, surface present around the deepest sample of every part." + twin_text("MarchingCanvas.March and Field.March of three different fields on canvases of their own (block edge scaled to 6; explored without preemption - both orders - because one march has thousands of scheduling points of its own)"),
 "level_note": "Trusted: reference distance functions, lattice sampler and edge-pairing oracle in harness/props/c09. Precondition (below-threshold region inside the interior of the declared domain) is decided exactly by the enumerator; cases failing it by an ulp are run as reported-only. The scaled build changes one constant of the code under test and is reported as its own job (bounds 'C09.block_edge'); its cases carry the equivalent block=100 placement. Parallel variants belong to C10.",
 "rule": "one evaluation = one AddField+March judged by the whole oracle; non-trivial when the mesh is non-empty; distinct by the full case (shape parameters, centre, resolution, cutoff, block edge)",
 "assumptions": COMMON_ASSUME + [
